@@ -19,7 +19,7 @@ for pid in props:
         "evidence_file": "/verif/evidence/%s.json" % pid,
         "replay_cmd_template": "./check %s --replay {path}" % pid,
         "engine": "harness",
-        "level_claimed": {"category": CHECKS[pid]["level"], "text": tx["level_text"], "design_ref": "DESIGN.md section 4, " + pid},
+        "level_claimed": {"category": CHECKS[pid]["level"], "text": tx["level_text"] + " Test functions (each reported under per_test in the evidence, with its own case rule): " + ", ".join(t["name"] for t in CHECKS[pid]["tests"]) + ".", "design_ref": "DESIGN.md section 4, " + pid},
         "level_note": tx["level_note"],
         "technique": tx["technique"],
     })
